@@ -65,7 +65,15 @@ func runSolver(ctx context.Context, s solverSpec, file string, timeoutS int) sol
 	cmd.Stderr = &out
 	_ = cmd.Run()
 	txt := out.String()
-	first := strings.TrimSpace(strings.SplitN(txt, "\n", 2)[0])
+	first := ""
+	for _, ln := range strings.Split(txt, "\n") {
+		ln = strings.TrimSpace(ln)
+		if ln == "" || strings.HasPrefix(ln, "WARNING") {
+			continue
+		}
+		first = ln
+		break
+	}
 	v := "unknown"
 	switch first {
 	case "sat", "unsat":
@@ -77,6 +85,9 @@ func runSolver(ctx context.Context, s solverSpec, file string, timeoutS int) sol
 // Solve races the solvers on one obligation. In confirm mode every solver's
 // verdict is collected (thorough tier: two solver families must agree).
 func (o *Obligation) Solve(dir string, timeoutS int, confirm bool) {
+	if o.Solver == "census" && o.Status != "" {
+		return // decided syntactically by the generator
+	}
 	if o.Cover && timeoutS > 3 {
 		// vacuity guards: "sat" is usually found at once; an unknown is tolerated
 		timeoutS = 3
